@@ -59,3 +59,49 @@ Lemma state_vars_agree : state_vars_same_set = true.
 Proof. vm_compute. reflexivity. Qed.
 Lemma no_runtime_process_state_holds : no_runtime_process_state = true.
 Proof. vm_compute. reflexivity. Qed.
+
+(* ---- instance-level state: caches do not live in package-level variables only.  StateGen.fields lists every field of a
+   struct type of the compile-path packages that is a map, a channel or a sync primitive; each is reviewed here, and the
+   review is compared with the regenerated list as a SET: a new map field (a cache added to the PackageSet, to a resolver,
+   to the parser ...) breaks [state_fields_agree] until it is classified, i.e. modelled or argued to be a memo.
+     FCache    state that survives a CompilePackage call inside the PackageSet and IS a parameter of the model
+     FMemo     survives calls, not a parameter: memoises a function of inputs that do not change during the life of the set
+     FValue    a component of a value that is built once (per file / per package / per message) and then only read; it
+               reaches later calls only inside an FCache value
+     FLock     a mutex *)
+Inductive field_class := FCache (model : string) | FMemo (of_what : string) | FValue (of_what : string) | FLock.
+Definition fkey := (string * string * string)%type.      (* package, struct type, field *)
+Definition reviewed_fields : list (fkey * field_class) :=
+  [ (("j5convert", "EnumRef", "ValMap"), FValue "enum value numbers inside a TypeRef of a file summary");
+    (("j5convert", "FileSummary", "DependencyPositions"), FValue "per-file summary (positions of dependency references, for error messages)");
+    (("j5convert", "FileSummary", "Exports"), FValue "per-file summary: model srcfile.f_exports; ranged in includeIO / checkDuplicateExports (census rows)");
+    (("j5convert", "PackageSummary", "Exports"), FValue "summary of a dependency package");
+    (("j5convert", "importMap", "vals"), FValue "imports of one file during SourceSummary (census row: warn_unused)");
+    (("protobuild", "Package", "DirectDependencies"), FValue "of a loaded package: model pkg.p_deps");
+    (("protobuild", "Package", "Exports"), FValue "of a loaded package: model pkg.p_exports");
+    (("protobuild", "Package", "Files"), FValue "of a loaded package: model pkg.p_files; the SearchResult.Linked inside is the model's link cache lc");
+    (("protobuild", "PackageSet", "Packages"), FCache "the package cache pc of load / compile_and_link / compile_link_seq");
+    (("protobuild", "dependencyResolver", "resultCache"), FMemo "findFileByPath over the dependency set and the built-in files (model: ext_file, a function)");
+    (("protobuild", "sourceResolver", "localPackageNames"), FValue "built once from ListPackages in newSourceResolver: model flat_bundle (a package is local iff listed)");
+    (("optionreflect", "Builder", "exts"), FValue "extension table of one printer Builder, built in its constructor, only read");
+    (("walker/schema", "BlockSpec", "Aliases"), FValue "of one block spec (census rows: add_absent)");
+    (("walker/schema", "SchemaSet", "cachedSpecs"), FMemo "_buildSpec of a schema name: a function of the j5s reflection schema and the given specs, both fixed for the parser's life; NOT a parameter of the model (the front end is upstream of cmpa's AST)");
+    (("walker/schema", "SchemaSet", "givenSpecs"), FValue "the literal spec table handed to the parser's constructor, only read");
+    (("j5reflect", "leafArrayField", "lock"), FLock);
+    (("j5reflect", "mutableArrayField", "lock"), FLock);
+    (("j5reflect", "propSet", "asMap"), FValue "properties of one reflected message by JSON name, built in its constructor") ].
+Definition fkey_eqb (a b : fkey) : bool :=
+  match a, b with (a1, a2, a3), (b1, b2, b3) => String.eqb a1 b1 && String.eqb a2 b2 && String.eqb a3 b3 end.
+Definition field_key (f : string * string * string * string) : fkey := match f with (p, t, n, _) => (p, t, n) end.
+Definition fkeys_subset (a b : list fkey) : bool := forallb (fun k => existsb (fkey_eqb k) b) a.
+Definition state_fields_same_set : bool :=
+  fkeys_subset (map field_key StateGen.fields) (map fst reviewed_fields)
+  && fkeys_subset (map fst reviewed_fields) (map field_key StateGen.fields).
+Lemma state_fields_agree : state_fields_same_set = true.
+Proof. vm_compute. reflexivity. Qed.
+(* exactly one field is a cache that the model must (and does) thread through calls; the memos are named *)
+Definition caches_and_memos : list fkey :=
+  map fst (filter (fun r => match snd r with FCache _ | FMemo _ => true | _ => false end) reviewed_fields).
+Lemma caches_and_memos_are : caches_and_memos =
+  [("protobuild", "PackageSet", "Packages"); ("protobuild", "dependencyResolver", "resultCache"); ("walker/schema", "SchemaSet", "cachedSpecs")].
+Proof. vm_compute. reflexivity. Qed.
